@@ -123,10 +123,13 @@ Notation sim_at := (sim_at OG extras uranges pp cfg w).
 Notation in_fragment := (in_fragment OG extras uranges pp).
 Notation K := (K OG).
 Notation Cl := (Cl OG).
+Notation ClS := (ClS OG).
 Notation HE := (HE OG extras uranges pp HG).
 
 Lemma cl_of_K x : fclean OG K x = true -> Cl x.
 Proof. intros H. exists K. exact H. Qed.
+Lemma cls_of_cleanP x : cleanP OG K x -> ClS x.
+Proof. intros [H|H]; [left; now apply cl_of_K|right; exact H]. Qed.
 
 (* a tagged expression of the fragment produces at least one node whenever it matches and tokens are on *)
 Lemma emits_last_nonempty e : emits_last OG e = true -> in_fragment e = true ->
@@ -176,8 +179,8 @@ Proof. apply pv_expr. Qed.
 
 Lemma sim_step f : sim_at f -> sim_at (S f).
 Proof.
-  intros IH e. induction e; intros a emit p sg Fr Ro Li;
-    cbn [embed VmCompile.vm_expr]; cbn [Refine6.in_fragment Refine6.rok lits_valid] in Fr, Ro, Li.
+  intros IH e. induction e; intros a emit p sg Fr Ro Li; apply psim_sem;
+    cbn [embed VmCompile.vm_expr]; cbn [Refine6.in_fragment Refine6.rokP lits_valid] in Fr, Ro, Li.
   - (* OStr *) cbn [eval]. apply psim_str.
   - (* OInsens *) cbn [eval]. apply psim_insens.
   - (* ORange *) cbn [eval]. apply psim_range.
@@ -188,11 +191,11 @@ Proof.
   - (* OPeekSlice *)
     eapply psim_eq; [|apply psim_peek_slice]. symmetry. cbn [eval]. apply spec_peek_slice.
   - (* OPosPred *)
-    cbn [eval]. apply (psim_lookahead cfg E w pp (Cl e) _ true). now apply IH.
+    cbn [eval]. apply (psim_lookahead cfg E w pp (ClS e) _ true). now apply IH.
   - (* ONegPred *)
-    cbn [eval]. apply (psim_lookahead cfg E w pp (Cl e) _ false). now apply IH.
+    cbn [eval]. apply (psim_lookahead cfg E w pp (ClS e) _ false). now apply IH.
   - (* OSeq *)
-    apply andb_true_iff in Fr. destruct Fr as [F1 F2]. apply andb_true_iff in Ro. destruct Ro as [R1 R2]. destruct Li as [L1 L2].
+    apply andb_true_iff in Fr. destruct Fr as [F1 F2]. destruct Ro as [R1 R2]. destruct Li as [L1 L2].
     eapply psim_eq; [|apply psim_sequence;
       apply (pbsim_andthen cfg E w pp Hcfg HE _ _ a emit p sg
                (sres_bind (ev f a emit (embed e1) p sg) (fun p1 sg1 => skip_with G (ev f) f a emit p1 sg1))
@@ -209,20 +212,19 @@ Proof.
     destruct (eval _ _ _ _ f a emit (embed e2) p2 sg2) as [p3 sg3 f3| |]; cbn [sres_bind]; auto.
     now rewrite app_assoc.
   - (* OChoice *)
-    apply andb_true_iff in Fr. destruct Fr as [F1 F2]. apply andb_true_iff in Ro. destruct Ro as [Ro R3].
-    apply andb_true_iff in Ro. destruct Ro as [R1 R2]. destruct Li as [L1 L2].
+    apply andb_true_iff in Fr. destruct Fr as [F1 F2]. destruct Ro as (R1 & R2 & R3). destruct Li as [L1 L2].
     cbn [eval].
-    apply (psim_weaken cfg E w pp (Cl e2)).
-    { intros [k Hk]. exists k. destruct k; cbn [Refine6.fclean fclean_e] in Hk |- *; apply andb_true_iff in Hk; tauto. }
-    apply (psim_orelse cfg E w pp Hcfg HE (Cl e1) (Cl e2)); [now apply pvx|now apply cl_of_K|now apply IH|now apply IH].
+    apply (psim_weaken cfg E w pp (ClS e2)).
+    { intros [k Hk]. left. exists k. destruct k; cbn [Refine6.fclean fclean_e] in Hk |- *; apply andb_true_iff in Hk; tauto. }
+    apply (psim_orelse cfg E w pp Hcfg HE (ClS e1) (ClS e2)); [now apply pvx|now apply cls_of_cleanP|now apply IH|now apply IH].
   - (* OOpt *)
-    apply andb_true_iff in Ro. destruct Ro as [R1 R2]. cbn [eval].
-    apply (psim_optional cfg E w pp (Cl e)); [now apply cl_of_K|now apply IH].
+    destruct Ro as [R1 R2]. cbn [eval].
+    apply (psim_optional cfg E w pp (ClS e)); [now apply cls_of_cleanP|now apply IH].
   - (* ORep *)
-    apply andb_true_iff in Ro. destruct Ro as [R1 R2]. cbn [eval]. unfold rep_from_with. rewrite rep_eq.
+    destruct Ro as [R1 R2]. cbn [eval]. unfold rep_from_with. rewrite rep_eq.
     apply psim_sequence. eapply psim_pbsim.
-    apply (psim_optional cfg E w pp (Cl e) True); [now apply cl_of_K|].
-    apply (psim_andthen_total cfg E w pp Hcfg HE (Cl e) True); [now apply pvx|now apply IH|].
+    apply (psim_optional cfg E w pp (ClS e) True); [now apply cls_of_cleanP|].
+    apply (psim_andthen_total cfg E w pp Hcfg HE (ClS e) True); [now apply pvx|now apply IH|].
     intros p1 sg1 f1 _. split; [|apply loop_not_fail].
     apply psim_repeat. apply (psim_loop cfg E w pp Hcfg HE True _ a emit (rep_unit G (ev f) f a emit (embed e))).
     + cbn. split; [apply pv_skip|now apply pvx].
@@ -237,18 +239,18 @@ Proof.
       * intros p0 sg0. now apply sim_rep_unit.
   - (* OSkip *) cbn [eval]. now apply psim_skip_until.
   - (* OPush *)
-    cbn [eval]. apply (psim_weaken cfg E w pp (Cl e)).
-    { intros [k Hk]. exists k. destruct k; exact Hk. }
+    cbn [eval]. apply (psim_weaken cfg E w pp (ClS e)).
+    { intros [k Hk]. left. exists k. destruct k; exact Hk. }
     apply psim_push; [exact Hcfg|exact HE|now apply pvx|now apply IH].
   - (* OPushLiteral *) cbn [eval]. apply psim_push_lit.
   - (* ONodeTag *)
     apply andb_true_iff in Fr. destruct Fr as [F1 F2]. cbn [eval].
-    apply (psim_weaken cfg E w pp (Cl e)).
-    { intros [k Hk]. exists k. destruct k; exact Hk. }
+    apply (psim_weaken cfg E w pp (ClS e)).
+    { intros [k Hk]. left. exists k. destruct k; exact Hk. }
     apply (psim_tag cfg E w pp Hcfg HE); [now apply pvx|now apply IH|].
     intros p' sg' f0 Hr ->. eapply emits_last_nonempty; eauto.
   - (* ORestoreOnErr *)
-    apply (psim_restore cfg E w pp (Cl e)). now apply IHe.
+    apply (psim_restore cfg E w pp (ClS e)). now apply IHe.
 Qed.
 
 (* THE SIMULATION: for every Spec fuel, every expression of the fragment, every represented state *)
